@@ -733,6 +733,48 @@ func init() {
 				}
 				return true
 			})
+			// polarity: `true` is returned exactly on a path where some checkpoint's IncludesTable held,
+			// and the function can return true (an "always false" answer lets neighbours delete shared files)
+			returnsTrue := false
+			polSpec := &pathsim.Spec{
+				Atom: func(c *pathsim.Ctx, e ast.Expr) (int, bool, bool) {
+					if call, ok := ast.Unparen(e).(*ast.CallExpr); ok && r.P.CalleeFunc(c.Info, call) == cpInc {
+						return 0, false, true
+					}
+					return 0, false, false
+				},
+				Step: func(c *pathsim.Ctx, st pathsim.State, ev *pathsim.Event) []pathsim.State {
+					switch ev.Kind {
+					case pathsim.EvRangeIter:
+						st.V[0] = pathsim.Unknown
+						return []pathsim.State{st}
+					case pathsim.EvReturn:
+						if len(ev.Results) != 1 {
+							return nil
+						}
+						tv, ok := c.Info.Types[ev.Results[0]]
+						if !ok || tv.Value == nil {
+							if call, isCall := ast.Unparen(ev.Results[0]).(*ast.CallExpr); isCall && r.P.CalleeFunc(c.Info, call) == cpInc {
+								returnsTrue = true
+								return nil
+							}
+							c.Violate(ev.Pos, "[answer-shape] IncludesTable returns something other than a constant or a checkpoint's own answer")
+							return nil
+						}
+						if tv.Value.String() == "true" {
+							returnsTrue = true
+							// answering true without a hit only keeps more files: not a violation of C09
+						} else if st.V[0] == pathsim.True {
+							c.Violate(ev.Pos, "[false-despite-hit] IncludesTable answers false although a retained checkpoint includes the table: DB.NeedsTable says 'not needed' and the neighbour deletes a file this checkpoint references")
+						}
+					}
+					return nil
+				},
+			}
+			r.Sim(it.Decl, it.Name()+":polarity", polSpec)
+			if !returnsTrue {
+				r.Fail(it.Name()+":never-true", it.Decl.Pos(), nil, "CheckpointList.IncludesTable can never answer true: every shared table is reported as not needed")
+			}
 			r.Site(it.Decl.Pos(), "IncludesTable ranges over every retained checkpoint")
 			if !okAny {
 				r.Fail(it.Name()+":shape", it.Decl.Pos(), nil, "CheckpointList.IncludesTable no longer consults every retained checkpoint")
